@@ -24,7 +24,8 @@ ASSUMPTIONS = [
     "kept information is compared field-wise through harness/wire.py's decoding of the input and of the re-encoded bytes",
     "inputs rejected by the decoder are out of scope here (C03)",
 ]
-BUDGET = {"quick": {"examples": 16000, "shrink": 250}, "thorough": {"examples": 800000, "shrink": 1500}}
+BUDGET = {"quick": {"examples": 16000, "shrink": 250}, "thorough": {"examples": 800000, "shrink": 1500, "extra_shards": 16}}
+FUZZ_RUNS = {"quick": 0, "thorough": 400000}
 
 
 @st.composite
@@ -78,8 +79,37 @@ def _check_option(buf, labels):
     return True, bytes(b2) != consumed
 
 
+def extra(tier, seed, shard, st):
+    import sys
+    from ..fuzz import campaign
+    campaign.run_shard(sys.modules[__name__], tier, seed, shard, st, runs=FUZZ_RUNS[tier], with_corpus=shard % 2 == 0)
+
+
 def run_case(case):
+    if case.get("kind") == "raw":
+        # an input of the coverage-guided campaign: try it as SOME/IP message, as SD payload and as the payload of an SD message
+        data = bytes.fromhex(case["hex"])
+        r1 = run_case({"kind": "someip-raw", "hex": case["hex"]})
+        r2 = run_case({"kind": "sd-raw", "hex": case["hex"]})
+        try:
+            f, _ = wire.decode_someip(data)
+            r3 = run_case({"kind": "sd-raw", "hex": f["payload"].hex()})
+        except wire.WireError:
+            r3 = r2
+        return ok(r1["nontrivial"] or r2["nontrivial"] or r3["nontrivial"], ["kind=raw"])
     labels = [f"kind={case['kind']}"]
+    if case["kind"] == "someip-raw":
+        data = bytes.fromhex(case["hex"])
+        try:
+            v, rest = hdr.SOMEIPHeader.parse(data)
+        except hdr.ParseError:
+            return ok(False, labels + ["rejected"])
+        b2 = v.build()
+        consumed = data[: len(data) - len(rest)]
+        require(bytes(b2) == consumed, "C20.someip-bytes", lambda: f"consumed {consumed[:24].hex()} re-encoded {bytes(b2)[:24].hex()}")
+        v2, r2 = hdr.SOMEIPHeader.parse(bytes(b2))
+        require(v2 == v and bytes(r2) == b"", "C20.someip-cycle", lambda: f"{v} -> {v2}")
+        return ok(True, labels + ["accepted"])
     if case["kind"] == "someip":
         m = case["msg"]
         raw = c01._wire_msg(m) + bytes.fromhex(case.get("suffix", ""))
@@ -95,8 +125,17 @@ def run_case(case):
         require(v2 == v and bytes(r2) == b"", "C20.someip-cycle", lambda: f"{v} -> {v2} rest {len(r2)}")
         return ok(bool(case.get("mut")) or bool(rest), labels + ["accepted"])
 
-    payload, fields = S.raw_sd_bytes(case["sd"])
-    data = S.apply_mutations(payload, fields, case.get("mut", []))
+    if case["kind"] == "sd-raw":
+        data = bytes.fromhex(case["hex"])
+        # option / entry starts of an arbitrary payload: walk it leniently
+        fields = [(0, 2, "olen"), (0, 1, "etype"), (8, 1, "etype")]
+        if len(data) >= 12:
+            elen = int.from_bytes(data[4:8], "big")
+            fields += [(8 + 16 * k, 1, "etype") for k in range(min(8, elen // 16))] + [(12 + elen, 2, "olen")]
+        case = dict(case, sd={"options": [None] * 255})
+    else:
+        payload, fields = S.raw_sd_bytes(case["sd"])
+        data = S.apply_mutations(payload, fields, case.get("mut", []))
     nontrivial = False
 
     # --- as single options (every option start of the un-mutated layout, on the mutated bytes) and as entries
